@@ -5,13 +5,13 @@ use educe::Educe;
 use core::cmp::Ordering;
 #[derive(Educe)]
 #[repr(i64)]
-#[educe(PartialEq, Ord, PartialOrd, Eq)]
-pub enum T { C = 70000, B(::core::num::NonZeroU8) = 1, None = 0 }
-
-pub fn values() -> Vec<T> { vec![T::C, T::B(::core::num::NonZeroU8::new(1).unwrap()), T::B(::core::num::NonZeroU8::new(200).unwrap()), T::None] }
-pub fn show(x: &T) -> String { #[allow(unused_variables)] match x { T::C => format!("C()"), T::B(p0) => format!("B({})", sv(p0)), T::None => format!("None()") } }
-pub fn o_disc(x: &T) -> i128 { match x { T::C => 70000, T::B(_) => 1, T::None => 0 } }
-pub fn o_cmp(a: &T, b: &T) -> Ordering { match (a, b) { (T::C, T::C) => {  Ordering::Equal }, (T::B(a0), T::B(b0)) => { let c = ::core::cmp::Ord::cmp(a0, b0); if c != Ordering::Equal { return c; } Ordering::Equal }, (T::None, T::None) => {  Ordering::Equal }, _ => o_disc(a).cmp(&o_disc(b)) } }
+#[educe(Ord, PartialEq, Eq)]
+pub enum T { Unit = 255, None { #[educe(Ord(rank(2)))] data: char, a: ::core::num::NonZeroU8 } = -5 }
+impl PartialOrd for T { fn partial_cmp(&self, o: &Self) -> Option<Ordering> { Some(::core::cmp::Ord::cmp(self, o)) } }
+pub fn values() -> Vec<T> { vec![T::Unit, T::None { data: 'a', a: ::core::num::NonZeroU8::new(1).unwrap() }, T::None { data: 'a', a: ::core::num::NonZeroU8::new(200).unwrap() }, T::None { data: 'z', a: ::core::num::NonZeroU8::new(1).unwrap() }, T::None { data: 'z', a: ::core::num::NonZeroU8::new(200).unwrap() }] }
+pub fn show(x: &T) -> String { #[allow(unused_variables)] match x { T::Unit => format!("Unit()"), T::None { data: p0, a: p1 } => format!("None({},{})", sv(p0), sv(p1)) } }
+pub fn o_disc(x: &T) -> i128 { match x { T::Unit => 255, T::None { data: _, a: _ } => -5 } }
+pub fn o_cmp(a: &T, b: &T) -> Ordering { match (a, b) { (T::Unit, T::Unit) => {  Ordering::Equal }, (T::None { data: a0, a: a1 }, T::None { data: b0, a: b1 }) => { let c = ::core::cmp::Ord::cmp(a1, b1); if c != Ordering::Equal { return c; } let c = ::core::cmp::Ord::cmp(a0, b0); if c != Ordering::Equal { return c; } Ordering::Equal }, _ => o_disc(a).cmp(&o_disc(b)) } }
 #[repr(C)] pub struct Wrap { pub pre: u8, pub x: T, pub post: [u8; 9] }
 pub fn wrap(i: usize, n: u8) -> Wrap { Wrap { pre: n, x: values().swap_remove(i), post: [n; 9] } }
-pub fn run(out: &mut Out) { let vs = values(); for (i, a) in vs.iter().enumerate() { for (j, b) in vs.iter().enumerate() { let e = o_cmp(a, b); let g = ::core::cmp::Ord::cmp(a, b); out.check(g == e, "ordlayout_26", "cmp", || format!("cmp({}, {}) = {:?} expected {:?}", show(a), show(b), g, e)); let g2 = ::core::cmp::PartialOrd::partial_cmp(a, b); out.check(g2 == Some(e), "ordlayout_26", "partial_is_some_cmp", || format!("partial_cmp({}, {}) = {:?} expected Some({:?})", show(a), show(b), g2, e)); for n in [0u8, 1, 0x7f, 0x80, 0xff] { let wa = wrap(i, n); let wb = wrap(j, !n); let g = ::core::cmp::Ord::cmp(&wa.x, &wb.x); let e = o_cmp(a, b); out.check(g == e, "ordlayout_26", "cmp_neighbours", || format!("cmp({}, {}) with neighbour bytes {} = {:?} expected {:?}", show(a), show(b), n, g, e)); } } } }
+pub fn run(out: &mut Out) { let vs = values(); for (i, a) in vs.iter().enumerate() { for (j, b) in vs.iter().enumerate() { let e = o_cmp(a, b); let g = ::core::cmp::Ord::cmp(a, b); out.check(g == e, "ordlayout_26", "cmp", || format!("cmp({}, {}) = {:?} expected {:?}", show(a), show(b), g, e)); for n in [0u8, 1, 0x7f, 0x80, 0xff] { let wa = wrap(i, n); let wb = wrap(j, !n); let g = ::core::cmp::Ord::cmp(&wa.x, &wb.x); let e = o_cmp(a, b); out.check(g == e, "ordlayout_26", "cmp_neighbours", || format!("cmp({}, {}) with neighbour bytes {} = {:?} expected {:?}", show(a), show(b), n, g, e)); } } } }
